@@ -16,7 +16,7 @@ RULE = ("mem: random operation scenarios run over an in-memory transport whose b
 ASSUMPTIONS = ["a transport that reports a short count has queued exactly that many bytes (what sockets and libusb do)",
                "real-socket runs use generous wall-clock transport timeouts; a timeout there is reported as inconclusive, never as a violation"]
 SHARDS = {"quick": 8, "thorough": 16}
-TIME_BUDGET = {"quick": 90, "thorough": 900}
+TIME_BUDGET = {"quick": 300, "thorough": 1800}
 FLOORS = {"quick": {"short_writes": 5000, "tcp_pushes": 2, "tcp_short_sends": 1, "distinct": 100}, "thorough": {"short_writes": 100000, "tcp_pushes": 12}}
 
 CAPS = ["1", "23", "24", "25", "4095", "const", "random", "random0", "once", "stuck", "none"]
